@@ -15,6 +15,7 @@ import RuxModel.Model.Dispatch
     serve r <id> <v1> <v2>                       GET the URL of route <id> with these variable values
     serve na <id> <v1> <v2>                      POST the same URL (405 when enabled, else 404)
     serve nf <k>                                 GET a URL nobody registered
+    nilpanic                                     (implementation only) panic(nil) with a hook; the model answers `unsupported`
   handler  H  = PH | - | act,act,…      act = em:<t> nx pn:<pv> st:<k>:<v> ae:<e> sp:<k>:<v> ab ss:<code> wr:<b>
                                               wh:<code> rr:<id> rq:<id> gt:<k> dp     (<k> <v> <e> <b> hex)
   panic value pv = s.<hex> | e.<hex> | i.<int> | rn | ri
@@ -151,6 +152,7 @@ structure RouteInfo where
   route : Route
 
 structure DState where
+  started : Bool := false      -- a `new` op has been seen (everything else is `bad-op` before)
   mna : Bool := false
   globals : List Handler := []
   routes : List RouteInfo := []
@@ -194,8 +196,7 @@ def doServe (s : DState) (rt : Option Route) (k : Kind) : DState × String :=
   -- internal part: `pr` = "a context lost by a propagated panic was handed out again" — never, in the model
   ({ s with seq := cur, pool := pool' }, encResult cur s.cfg.rid res ++ " ;; pr=0")
 
-def dispatchStep (s : DState) : List String → DState × String
-  | ["new", _caching, mna] => ({ mna := mna = "1" }, "ok")
+def dispatchStep' (s : DState) : List String → DState × String
   | ["use", h] =>
     match parseHandler h with
     | some h => ({ s with globals := s.globals ++ [h] }, "ok")
@@ -243,6 +244,11 @@ def dispatchStep (s : DState) : List String → DState × String
       | none => (s, "bad-op")
     | _, _, _ => (s, "bad-op")
   | _ => (s, "bad-op")
+
+def dispatchStep (s : DState) : List String → DState × String
+  | ["new", _caching, mna] => ({ started := true, mna := mna = "1" }, "ok")
+  | ["nilpanic"] => (s, "unsupported")     -- panic(nil) is outside the model (known finding K-C09-panicnil)
+  | toks => if s.started then dispatchStep' s toks else (s, "bad-op")
 
 def dispatchEngine : Engine := { σ := DState, init := {}, step := dispatchStep }
 
